@@ -195,8 +195,12 @@ fn run_gated(tracer: &Tracer, rng: &mut StdRng, scenario: &str, tag: Value) {
     w.exec(&json!({"op":"commit"}));
     let st = Arc::new((Mutex::new(Gate { parked: false, release: false, armed: true }), Condvar::new()));
     let st2 = st.clone();
+    // stale_end_merge parks the UPDATER thread inside the end_merge task, right before it replaces
+    // meta.json; every other scenario parks the merge thread at its first open_write
+    let stale = scenario == "stale_end_merge";
     w.dir.set_gate(Some(Arc::new(move |op: &OpInfo, after: bool| {
-        if op.role == "merge" && op.op == "open_write" && !after {
+        let here = if stale { op.role == "updater" && op.op == "atomic_write" && op.path == "meta.json" && !after } else { op.role == "merge" && op.op == "open_write" && !after };
+        if here {
             let (m, cv) = &*st2;
             let mut g = m.lock().unwrap();
             if g.armed {
@@ -204,7 +208,8 @@ fn run_gated(tracer: &Tracer, rng: &mut StdRng, scenario: &str, tag: Value) {
                 g.parked = true;
                 cv.notify_all();
                 let t0 = std::time::Instant::now();
-                while !g.release && t0.elapsed() < Duration::from_secs(5) {
+                // (with kill() waiting for the running task, the stale scenario ends by this time-out)
+                while !g.release && t0.elapsed() < if stale { Duration::from_millis(1200) } else { Duration::from_secs(5) } {
                     let (g2, _) = cv.wait_timeout(g, Duration::from_millis(50)).unwrap();
                     g = g2;
                 }
@@ -295,6 +300,14 @@ fn run_gated(tracer: &Tracer, rng: &mut StdRng, scenario: &str, tag: Value) {
         "fresh_writer_delete" => {
             w.exec(&json!({"op":"add","id":n0 + 1,"t":"c","v":0}));
         }
+        "stale_end_merge" => {
+            // the old updater is inside its end_merge task (past the `killed` test); the writer is
+            // rolled back and the NEW writer commits; then the old task goes on and saves ITS metas
+            w.exec(&json!({"op":"rollback"}));
+            w.exec(&json!({"op":"add","id":n0 + 1,"t":"c","v":0}));
+            w.exec(&json!({"op":"commit"}));
+            w.exec(&json!({"op":"reload"}));
+        }
         _ => {
             w.exec(&json!({"op":"del","pred":{"k":"id","id":1}}));
             w.exec(&json!({"op":"commit"}));
@@ -312,8 +325,14 @@ fn run_gated(tracer: &Tracer, rng: &mut StdRng, scenario: &str, tag: Value) {
         let obs = w.observe();
         tracer.emit(json!({"ev":"merge","ok":r.is_ok(),"sids":[],"obs":obs}));
     }
+    if stale {
+        w.exec(&json!({"op":"reload"}));
+        w.exec(&json!({"op":"gc"}));
+        w.exec(&json!({"op":"observe"}));
+        w.exec(&json!({"op":"reload"}));
+    }
     w.dir.set_gate(None);
-    tracer.emit(json!({"ev":"schedule","name":format!("merge thread parked at its first open_write during {scenario}"),"realised":realised}));
+    tracer.emit(json!({"ev":"schedule","name":if stale { "updater parked inside end_merge before the meta.json replacement; rollback + commit by the new writer in between".to_string() } else { format!("merge thread parked at its first open_write during {scenario}") },"realised":realised}));
     w.exec(&json!({"op":"observe"}));
     w.exec(&json!({"op":"wait_merges"}));
     tantivy::verif::set_sink(None);
@@ -334,7 +353,7 @@ fn main() {
             }
         }
         "gated" => {
-            let scen = ["delete_commit", "rollback", "delete_all_commit", "two_commits", "fresh_writer_delete", "wait_with_intruder"];
+            let scen = ["delete_commit", "rollback", "delete_all_commit", "two_commits", "fresh_writer_delete", "wait_with_intruder", "stale_end_merge"];
             for r in 0..runs {
                 let s = scen[(r as usize) % scen.len()];
                 run_gated(&tracer, &mut rng, s, json!({"seed":seed,"run":r,"scenario":s}));
